@@ -65,7 +65,9 @@ var c18Templates = []c18Template{
 	metT("max_without", "max without (msg) (count_over_time(", "))"),
 	metT("count_by", "count by (container_image) (count_over_time(", "))"),
 	metT("vec_lit", "count_over_time(", ") * 3"),
-	{name: "sum_unwrap", metric: true, build: func(a, _, r string) string { return "sum_over_time(" + a + " | unwrap weight [" + r + "]) by (container)" }},
+	{name: "sum_unwrap", metric: true, build: func(a, _, r string) string {
+		return "sum_over_time(" + a + " | unwrap weight [" + r + "]) by (container)"
+	}},
 	{name: "max_unwrap_image", metric: true, build: func(a, _, r string) string {
 		return "max_over_time(" + a + " | unwrap weight [" + r + "]) by (container_image)"
 	}},
@@ -85,7 +87,9 @@ var c18Templates = []c18Template{
 	{name: "min_of_unwrap", metric: true, build: func(a, _, r string) string {
 		return "min by (container) (min_over_time(" + a + " | logfmt | unwrap k [" + r + "]))"
 	}},
-	{name: "rate", metric: true, build: func(a, _, r string) string { return "sum by (container) (count_over_time(" + a + " |~ \"r[0-5]\" [" + r + "]))" }},
+	{name: "rate", metric: true, build: func(a, _, r string) string {
+		return "sum by (container) (count_over_time(" + a + " |~ \"r[0-5]\" [" + r + "]))"
+	}},
 	metT("lit_vec", "100 - sum by (container) (count_over_time(", "))"),
 	metT("cmp", "sum by (container) (count_over_time(", ")) > 1"),
 	metT("cmp_bool", "sum by (container) (count_over_time(", ")) >= bool 2"),
